@@ -900,6 +900,12 @@ func (vm *VirtualMachine) callFunction(
 
 	// Evaluate the function code then return the result from TOS
 	if err := vm.eval(ctx); err != nil {
+		// Operands that the failed call left behind are not a result. Drop
+		// them, otherwise the caller's stack grows with every caught error.
+		for i := vm.sp; i > baseSP; i-- {
+			vm.stack[i] = nil
+		}
+		vm.sp = baseSP
 		return nil, err
 	}
 	return vm.pop(), nil
